@@ -131,17 +131,62 @@ def _shape_sets(pv: dict, shape_of_job: dict) -> dict[str, list]:
     return out
 
 
+def _tiny_dataset(rng: random.Random) -> tuple[list[dict], dict]:
+    """Fewer than ten stored rows: two or three traces of ONE workflow and ONE call-tree shape
+    whose sibling spans run in opposite time order (same shape, different PV sequence), the
+    first-delivered trace NOT having the smallest trace id."""
+    base = 1_700_000_000 * 10**9
+    traces = []
+    n = rng.choice([2, 3])
+    ids = [f"tw-{9 - k}" for k in range(n)]
+    for k, jid in enumerate(ids):
+        a, b = (("x", "y") if k % 2 == 0 else ("y", "x"))
+        t0 = base + k * 10**9
+        sp = [{"job_name": NAMES[0], "job_id": jid, "event_type": "root", "event_id": f"{jid}.0",
+               "start_timestamp": t0, "end_timestamp": t0 + 9 * 10**6, "application_name": "app",
+               "parent_event_id": None}]
+        for j, ty in enumerate((a, b)):
+            sp.append({"job_name": NAMES[0], "job_id": jid, "event_type": ty,
+                       "event_id": f"{jid}.{j + 1}", "start_timestamp": t0 + (1 + 3 * j) * 10**6,
+                       "end_timestamp": t0 + (3 + 3 * j) * 10**6, "application_name": "app",
+                       "parent_event_id": f"{jid}.0"})
+        traces.append({"job_id": jid, "name": NAMES[0], "kind": "complete", "spans": sp})
+    st = {"traces": traces, "base": base, "total": n * 10**9}
+    return [s for t in traces for s in t["spans"]], st
+
+
+def _all_cleaned_dataset(rng: random.Random) -> tuple[list[dict], dict]:
+    """Every delivered trace is removed by cleaning (dangling parents): the store is empty
+    when the unique-graph search and the streaming run."""
+    base = 1_700_000_000 * 10**9
+    traces = []
+    for k in range(rng.choice([1, 2])):
+        tree = store.rand_tree(rng, 3, TYPES)
+        jid = f"tr-gone{k}"
+        sp = store.materialise(tree, jid, NAMES[k % 2], base + k * 10**9, rng, 10**6)
+        sp[-1]["parent_event_id"] = f"{jid}.missing"
+        traces.append({"job_id": jid, "name": NAMES[k % 2], "kind": "dangling-leaf", "spans": sp})
+    st = {"traces": traces, "base": base, "total": 2 * 10**9}
+    return [s for t in traces for s in t["spans"]], st
+
+
 def run_history(case: dict) -> dict:
     rng = random.Random(case["rng_seed"])
     tb, bs = case["time_buffer"], case["batch_size"]
-    stream, st = _dataset(rng, case["n_traces"], tb)
+    if case.get("dataset") == "tiny":
+        stream, st = _tiny_dataset(rng)
+    elif case.get("dataset") == "all-cleaned":
+        stream, st = _all_cleaned_dataset(rng)
+    else:
+        stream, st = _dataset(rng, case["n_traces"], tb)
     out_spans = len(stream)
     wd = tempfile.mkdtemp(prefix="c15-", dir=case["work_dir"])
     out: dict[str, Any] = {"status": "ok", "violations": [], "runs": [], "cli_runs": 0,
                            "spans": out_spans}
     try:
-        docs = otelgen.spans_to_documents(stream, rng, nfiles=rng.randint(1, 3),
-                                          dup_rate=case.get("dup_rate", 0.05))
+        special = case.get("dataset") in ("tiny", "all-cleaned")
+        docs = otelgen.spans_to_documents(stream, rng, nfiles=1 if special else rng.randint(1, 3),
+                                          dup_rate=0.0 if special else case.get("dup_rate", 0.05))
         otelgen.write_dataset(os.path.join(wd, "in"), docs)
         shape_of_job = {t["job_id"]: store.shape_of(t["spans"]) for t in st["traces"]}
 
@@ -175,6 +220,8 @@ def run_history(case: dict) -> dict:
         db = os.path.join(wd, "store.db")
         otelgen.write_config(cfg, os.path.join(wd, "in"), "sqlite:///" + db, bs, tb)
         first_digest = None
+        ingested_yet = False
+        first_ug_pv = None
         for i, r in enumerate(case["runs"]):
             o = os.path.join(wd, f"out{i}")
             res = _run_cli(wd, cfg, o, r)
@@ -182,6 +229,12 @@ def run_history(case: dict) -> dict:
             dg = _db_digest(db)
             rec = {"flags": flags_str(r), "rc": res["rc"], "db": dg}
             out["runs"].append(rec)
+            if not ingested_yet and not r["ingest"]:
+                # a run on a store nothing was ever ingested into: its own outcome is
+                # information only; what it leaves behind is judged through the later runs
+                rec["before_first_ingest"] = True
+                continue
+            ingested_yet = True
             if res["rc"] != 0:
                 out["violations"].append({
                     "symptom": "run-fails:" + ("first" if i == 0 else "later"),
@@ -202,6 +255,15 @@ def run_history(case: dict) -> dict:
                         "detail": {"run": i, "history": [flags_str(x) for x in case["runs"][:i + 1]],
                                    "diff": _pv_diff(pv, base_plain)}})
             else:
+                if first_ug_pv is None:
+                    first_ug_pv = pv
+                elif pv != first_ug_pv:
+                    # the same store, the same flags: the same selected traces, hence the same
+                    # PV sequences, as the first unique-graph run of this history
+                    out["violations"].append({
+                        "symptom": "ug-pv-sequences-differ-from-first-ug-run-on-this-store",
+                        "detail": {"run": i, "history": [flags_str(x) for x in case["runs"][:i + 1]],
+                                   "diff": _pv_diff(pv, first_ug_pv)}})
                 got, want = _shape_sets(pv, shape_of_job), _shape_sets(base_ug, shape_of_job)
                 if got != want:
                     out["violations"].append({
@@ -286,6 +348,34 @@ def main(tier: str, seed: int) -> int:
                       "n_traces": 220 + 30 * j, "work_dir": wd,
                       "_wall_limit": 1500})
     stats["large_data_set_histories"] = 2
+    F = lambda i, u, s_: {"ingest": i, "ug": u, "se": s_}   # noqa: E731
+    # tiny stores (< 10 rows) with same-shape twins: which twin represents the shape must not
+    # change from run to run on one store
+    tiny = [[F(True, True, True), F(False, True, True)],
+            [F(True, True, True), F(True, True, True), F(False, True, True)],
+            [F(True, False, True), F(False, True, True), F(False, True, True)],
+            [F(True, True, False), F(False, True, True), F(True, True, True)]]
+    for j, h in enumerate(tiny):
+        cases.append({"runs": h, "rng_seed": f"{seed}-tiny-{j}", "time_buffer": 0,
+                      "batch_size": (1000, 2, 1000, 3)[j], "dataset": "tiny", "n_traces": 0,
+                      "work_dir": wd, "_wall_limit": 1500})
+    # runs on a store nothing was ingested into yet, and data sets that cleaning empties
+    early = [[F(False, True, False), F(True, True, True), F(False, True, True)],
+             [F(False, True, True), F(True, False, True), F(True, True, True)],
+             [F(False, False, True), F(True, True, True)]]
+    for j, h in enumerate(early):
+        cases.append({"runs": h, "rng_seed": f"{seed}-early-{j}", "time_buffer": j % 2,
+                      "batch_size": rng.choice([1, 2, 3, 1000]), "n_traces": rng.randint(6, 10),
+                      "work_dir": wd, "_wall_limit": 1500})
+    gone = [[F(True, True, False), F(True, True, True), F(False, True, True)],
+            [F(True, True, True), F(False, True, True)],
+            [F(True, False, True), F(True, True, True)]]
+    for j, h in enumerate(gone):
+        cases.append({"runs": h, "rng_seed": f"{seed}-gone-{j}", "time_buffer": 0,
+                      "batch_size": (1000, 2, 1)[j], "dataset": "all-cleaned", "n_traces": 0,
+                      "work_dir": wd, "_wall_limit": 1500})
+    stats.update({"tiny_store_histories": len(tiny), "histories_starting_without_ingest": len(early),
+                  "histories_on_data_cleaning_empties": len(gone)})
     chk.extra["workload"] = stats
     results, notes = core.run_workers("checks.c15", "run_history", cases, hashseeds=[0],
                                       chunks_per_proc=4, timeout=6000)
@@ -315,6 +405,11 @@ def main(tier: str, seed: int) -> int:
         for i, rec in enumerate(r["runs"]):
             obs["runs_in_histories"] += 1
             f = c["runs"][i]
+            if rec.get("before_first_ingest"):
+                obs["runs_before_first_ingest"] = obs.get("runs_before_first_ingest", 0) + 1
+                obs["runs_before_first_ingest_exit_0"] = \
+                    obs.get("runs_before_first_ingest_exit_0", 0) + (rec["rc"] == 0)
+                continue
             if i > 0:
                 obs["reingest_runs" if f["ingest"] else "no_ingest_runs"] += 1
                 if rec.get("store_same_as_after_first_run") is False:
